@@ -33,14 +33,15 @@ INVS_SAFETY = ["ResultAuthentic", "CacheAuthentic", "ConfigAuthentic", "HonestLi
 
 def make(name, clients, client_of, lookups, h, prefix, size_a, size_b, served, max_grow=0, serve_tls=("A",), max_switch=0, coarse=True,
          max_faults=0, fault_kinds=(), tile_detail=True, partial_gone=False, max_restarts=0, init_cfgs=(None,), skip=(),
-         invariants=INVS_SAFETY, properties=("ConfigChain", "MemChain"), emit=True, view=False, extra_invs=()):
+         invariants=INVS_SAFETY, properties=("ConfigChain", "MemChain"), emit=True, view=False, extra_invs=(), kind="behaviour", emit_cond="TRUE"):
     """Returns (module_text, cfg_text)."""
     mod = ["---- MODULE %s ----" % name, "EXTENDS SumdbClient, Json",
            "MC_ClientOf == " + tla_fun(client_of, lambda v: '"%s"' % v),
            "MC_Lookups == " + tla_fun(lookups, tla_seq),
            "MC_InitServed == " + tla_fun(served),
            "MC_InitCfgs == {" + ", ".join(head(x) for x in init_cfgs) + "}",
-           'Emit == AllDone => PrintT(ToJson([w |-> "client", k |-> "behaviour",',
+           'Interesting == \\E i \\in 1..Len(hist) : (hist[i].op = "WriteConfig" /\\ hist[i].conflict) \\/ (hist[i].op = "Hook" /\\ hist[i].point = "install" /\\ ~hist[i].ok)',
+           'Emit == (AllDone /\\ %s) => PrintT(ToJson([w |-> "client", k |-> "%s",' % (emit_cond, kind),
            '    in |-> [h |-> H, prefix |-> Prefix, sizeA |-> SizeA, sizeB |-> SizeB, served |-> InitServed, cfg0 |-> hist[1].head,',
            '            clientOf |-> ClientOf, skip |-> Skip, ops |-> hist],',
            '    exp |-> [results |-> results, cfg |-> cfg, files |-> DOMAIN disk]]))',
@@ -180,3 +181,58 @@ def c13_configs(tier):
                                  served={"A": p + 1, "B": p + 1}, serve_tls=("A", "B"), max_switch=2, max_grow=2, max_restarts=1,
                                  init_cfgs=[None]))
     return cfgs
+
+
+INVS_C14 = ["ResultAuthentic", "HonestLive", "ConfigAuthentic", "FetchExclusive", "SkipSilentState", "QuiescentConfig", "CacheAuthentic"]
+
+
+def c14_config(threads, lookups, na, served, h=2, max_grow=2, skip=(), **kw):
+    clients = sorted(set(threads.values()))
+    d = dict(clients=clients, client_of=threads, lookups=lookups, h=h, prefix=0, size_a=na, size_b=0, served={"A": served},
+             max_grow=max_grow, tile_detail=False, coarse=False, skip=skip, invariants=INVS_C14, kind="schedule")
+    d.update(kw)
+    return d
+
+
+def c14_mc_configs(tier):
+    """Exhaustive interleaving exploration (E1): VIEW hides the history, nothing is printed."""
+    q = tier == "quick"
+    cfgs = [
+        # one client, two threads: same key (fetch once), different keys (install race)
+        c14_config({"t1": "c1", "t2": "c1"}, {"t1": [0], "t2": [0]}, 3, 1, view=True, emit=False),
+        c14_config({"t1": "c1", "t2": "c1"}, {"t1": [0], "t2": [1]}, 2, 1, max_grow=0, view=True, emit=False),
+        c14_config({"t1": "c1", "t2": "c1"}, {"t1": [0, 1], "t2": [1, 2]}, 3, 2, max_grow=1, view=True, emit=False, skip=(2,)),
+        # two clients, one thread each: configuration compare-and-swap race
+        c14_config({"t1": "c1", "t2": "c2"}, {"t1": [0, 1], "t2": [1, 0]}, 3, 2, max_grow=1, view=True, emit=False),
+    ]
+    if not q:
+        cfgs += [
+            c14_config({"t1": "c1", "t2": "c1", "t3": "c2", "t4": "c2"}, {"t1": [0], "t2": [1], "t3": [1], "t4": [0]}, 4, 2, max_grow=2, view=True, emit=False),
+            c14_config({"t1": "c1", "t2": "c1", "t3": "c1"}, {"t1": [0], "t2": [1], "t3": [0]}, 3, 1, max_grow=2, view=True, emit=False),
+            c14_config({"t1": "c1", "t2": "c2", "t3": "c3"}, {"t1": [0], "t2": [1], "t3": [2]}, 3, 1, max_grow=2, view=True, emit=False),
+        ]
+    return cfgs
+
+
+def c14_race_configs(tier):
+    """Schedules in which a configuration write conflicts or an install has to be retried (printed only then)."""
+    return [
+        c14_config({"t1": "c1", "t2": "c2"}, {"t1": [0], "t2": [1]}, 3, 2, max_grow=1, emit_cond="Interesting"),
+        c14_config({"t1": "c1", "t2": "c2"}, {"t1": [0, 1], "t2": [1, 2]}, 4, 2, max_grow=2, emit_cond="Interesting"),
+        c14_config({"t1": "c1", "t2": "c1"}, {"t1": [0], "t2": [1]}, 3, 2, max_grow=1, emit_cond="Interesting"),
+        c14_config({"t1": "c1", "t2": "c1", "t3": "c2"}, {"t1": [0], "t2": [1], "t3": [2]}, 4, 2, max_grow=2, emit_cond="Interesting"),
+        # heads that do not yet cover the other lookup's record (served head of size 1, grown on demand)
+        c14_config({"t1": "c1", "t2": "c1"}, {"t1": [0], "t2": [1]}, 2, 1, max_grow=0, emit_cond="Interesting"),
+        c14_config({"t1": "c1", "t2": "c1", "t3": "c1"}, {"t1": [0], "t2": [1], "t3": [2]}, 3, 1, max_grow=0, emit_cond="Interesting"),
+        c14_config({"t1": "c1", "t2": "c1"}, {"t1": [0, 0], "t2": [0, 1]}, 2, 1, max_grow=1),
+    ]
+
+
+def c14_sim_configs(tier):
+    """Schedules for replay (E2): random behaviours by TLC -simulate, each printed when all lookups are done."""
+    return [
+        c14_config({"t1": "c1", "t2": "c1"}, {"t1": [0, 1], "t2": [1, 0]}, 4, 2, max_grow=2),
+        c14_config({"t1": "c1", "t2": "c2"}, {"t1": [0, 2], "t2": [1, 0]}, 4, 2, max_grow=2),
+        c14_config({"t1": "c1", "t2": "c1", "t3": "c2", "t4": "c2"}, {"t1": [0, 3], "t2": [1], "t3": [1, 0], "t4": [2]}, 5, 2, max_grow=3, skip=(3,)),
+        c14_config({"t1": "c1", "t2": "c1", "t3": "c1", "t4": "c2"}, {"t1": [0], "t2": [0, 1], "t3": [2, 0], "t4": [2, 1]}, 6, 3, max_grow=3),
+    ]
